@@ -26,7 +26,8 @@ REQUIRED = {"pdo_bits.get": 2000, "pdo_bits.set": 1000}
 def plan(tier, seed):
     n = 16
     per = 40 if tier == "quick" else 1500
-    return [{"layouts": per, "maxbits": 8 if tier == "quick" else 12, "part": i, "parts": n} for i in range(n)]
+    return [{"layouts": per, "maxbits": 8 if tier == "quick" else 12, "part": i, "parts": n} for i in range(n)] + \
+        [{"ambient": ["test/test_pdo.py", "test/test_local.py"]}]
 
 
 def build_map(node, fields):
@@ -73,6 +74,12 @@ def run(ctx, desc):
     import canopen
     oracles.install_pdo_bits(ctx)
     oracles.install_codec(ctx, prefix="ambient_codec")
+    if "ambient" in desc:
+        from canmon import ambient
+        n = ambient.run_tests(ctx, desc["ambient"])
+        ctx.sample({"workload": "ambient", "repo_tests_run_under_pdo_contracts": n,
+                    "contract_evaluations": {k: v for k, v in ctx.monitors.items()}})
+        return
     od = gen.typed_od()
     node = canopen.RemoteNode(1, od)
     rng = ctx.rng("c05")
